@@ -17,7 +17,7 @@ ASSUMPTIONS = ['line-level landing points in the work thread of the child; the p
 SHRINK = 'none'
 TIME_BUDGET = {'quick': 170, 'thorough': 1700}
 REQUIRED = {'quick': {'landed_with_items': 150, 'land:_send_result': 10, 'land:_cleanup': 5, 'pipe:supplied': 100, 'mode:kill': 40, 'land:forwarding_thread': 60, 'unpicklable_partial_result': 40,
-                      'forced_terminate_of_stuck_child': 40, 'consumer_blocked_before_death': 100, 'host_vanished': 60},
+                      'forced_terminate_of_stuck_child': 40, 'consumer_blocked_before_death': 100, 'host_vanished': 60, 'second_read_right_after_end': 40},
             'thorough': {'landed_with_items': 600, 'land:_send_result': 40, 'land:_cleanup': 20}}
 
 
@@ -57,7 +57,7 @@ def strategy(tier):
 def _child_strategy():
     return st.fixed_dictionaries({
         'kind': st.sampled_from(IC.PERSISTENT), 'scenario': st.just('persist'), 'items': _items, 'close': st.booleans(),
-        'pipe': st.sampled_from(['default', 'supplied']), 'consumer': st.sampled_from(['late', 'early']),
+        'pipe': st.sampled_from(['default', 'supplied']), 'consumer': st.sampled_from(['late', 'early']), 'read_again': st.booleans(),
         'inject': st.one_of(
             st.fixed_dictionaries({'mode': st.just('terminate'), 'n_raw': st.integers(0, 900)}),
             st.fixed_dictionaries({'mode': st.just('terminate'), 'n_raw': st.integers(0, 900)}),
@@ -325,6 +325,12 @@ def run_case(case, ctx):
             out.viol('raw_counters_not_consecutive', site, repr(counters))
         if any(isinstance(r, dict) and 'odd' in r for r in obs['raw']):
             out.viol('malformed_raw_message', site, repr(obs['raw'])[:200])
+    if early and case.get('read_again') and end == 'stopped':
+        out.label('second_read_right_after_end')
+        ra = obs.get('read_again')
+        if ra != 'empty':
+            out.viol('second_read_after_end_' + str(ra), site, 'the consumer saw the end of the stream and called next_result() once more at once (the worker may still have been '
+                     'winding down): ' + ('the call is still blocked although the worker is dead' if ra == 'blocked' else 'it did not raise queue.Empty'))
     if case['pipe'] == 'default' and end == 'stopped':
         ae = obs.get('after_end')
         if ae != 'empty':
